@@ -929,8 +929,23 @@ func (in *Interp) stmt(fr *Frame, s ast.Stmt) (ctl, Value) {
 		default:
 			in.fail("range over %T at %v", x, fr.pkg.Fset.Position(v.Pos()))
 		}
+		_, overFunc := in.info(fr).TypeOf(v.X).Underlying().(*types.Signature)
 		for i, e := range elems {
 			sub := &Frame{vars: map[types.Object]*Value{}, pkg: fr.pkg, up: fr}
+			if overFunc {
+				// for x := range seq: the (first) iteration variable is the element
+				if v.Key != nil {
+					in.assign(sub, v.Key, e, v.Tok == token.DEFINE)
+				}
+				c, r := in.block(sub, v.Body.List)
+				if c == cBreak {
+					break
+				}
+				if c == cReturn {
+					return c, r
+				}
+				continue
+			}
 			if v.Key != nil {
 				in.assign(sub, v.Key, VInt{Known: true, V: i}, v.Tok == token.DEFINE)
 			}
@@ -2002,6 +2017,10 @@ func (in *Interp) call(fr *Frame, c *ast.CallExpr) Value {
 		}
 		// stdlib models
 		switch f.Origin {
+		case "extfunc:slices.Collect":
+			if l, ok := args[0].(*VList); ok {
+				return &VList{append([]Value{}, l.Elems...)}
+			}
 		case "extfunc:fmt.Sprintf":
 			return in.sprintf(args)
 		case "extfunc:fmt.Fprintf", "extfunc:fmt.Fprint":
@@ -2472,6 +2491,10 @@ func (in *Interp) typesModel(f *VOpaque, args []Value, org string, t types.Type)
 	case "Len", "NumFields", "NumMethods":
 		el := in.elemsOf(r)
 		return VInt{Known: true, V: len(el.Elems)}, true
+	case "Variables", "Fields", "Methods":
+		// the iterator over the same elements (go1.23 iter.Seq): ranged over, or collected with slices.Collect
+		el := in.elemsOf(r)
+		return &VList{append([]Value{}, el.Elems...)}, true
 	case "At", "Field", "Method":
 		el := in.elemsOf(r)
 		i, ok := args[0].(VInt)
